@@ -396,3 +396,15 @@ CLAIMED.update({
          "note": STD_NOTE + ORDER_NOTE,
          "technique": "static analysis: evaluation of the extracted resolver front end over its finite decision domain (K6/K3), must-pass-through between copy and append (K3)"},
 })
+CLAIMED.update({
+ "C34": {"level": "other",
+         "text": "Structural clauses of exactly-once completion in evdns.c: transaction_id_pick evaluated on reserved / in-flight / free generator outputs returns only an unused id, and "
+                 "request.trans_id is stored only from it (through parameters and conditional expressions, who-may-write); every request_finished(.., free_handle=1) is preceded on its "
+                 "path by reply_schedule_callback for the same request (only base teardown with fail_requests==0 is exempt) and after every reply_schedule_callback no path leaves the "
+                 "function with the request still queued; the deferred user callback is armed only in reply_schedule_callback, which sets pending_cb on every path; "
+                 "evdns_cancel_request returns without a second completion when a callback is pending; request_finished frees the handle only when none is pending; base teardown "
+                 "drains the waiting queue before finishing any in-flight request; the synchronous getaddrinfo paths are C38. "
+                 "Declined: completion counts under timeouts, retransmission, TCP fallback and nameserver failover over time.",
+         "note": STD_NOTE,
+         "technique": "static analysis: evaluation of the id picker (K6), who-may-write with interprocedural value provenance (K2/K8), must-precede / must-follow pairing on CFG paths (K3/K5), dominance ordering of teardown loops (K3)"},
+})
